@@ -48,6 +48,16 @@ def gen_cases(tier, seed):
                         cases.append({"kind": "spline", "family": fam, "box": None, "B": mag, "bins": K,
                                       "pscale": ps, "world": world,
                                       "seed": env.subseed(seed, "c17t", fam, mag, ps, world, rep), "cost": 1})
+            # "tail bounds and boxes of any magnitude": bounds whose SQUARE leaves the floating range (1.9e19 in float32, 1.4e154
+            # in float64) - anything computed from squared box coordinates overflows although inputs and outputs are ordinary numbers
+            for fam in ("linear", "quadratic", "cubic", "rq"):
+                for mi, mag in enumerate([1e19, 3e19, 1e25, 1e30] + ([1e155, 1e160, 1e200] if world == "f64" else [])):
+                    for ps in (0.0, 1.0):
+                        K = [1, 2, 5, 10][(mi + rep) % 4]
+                        cases.append({"kind": "spline", "family": fam, "box": None, "B": mag, "bins": K, "pscale": ps, "world": world,
+                                      "seed": env.subseed(seed, "c17huge", fam, mag, ps, world, rep), "cost": 1})
+                        cases.append({"kind": "spline", "family": fam, "box": [-mag, mag, -mag, mag], "bins": K, "pscale": ps,
+                                      "world": world, "seed": env.subseed(seed, "c17hugeb", fam, mag, ps, world, rep), "cost": 1})
             # bounds that are not exactly representable: 0.1, 0.3, 1.1, 1.7, 2.2 round UP in float32, 0.7, 3.3 round down;
             # the domain of a float32 call is bounded by the rounded value (an input holding the bound itself is inside)
             for fam in ("linear", "quadratic", "cubic", "rq"):
@@ -204,7 +214,8 @@ def run_case(case):
             magcls = "B=%g" % B
             for direction in ("forward", "inverse"):
                 inv = direction == "inverse"
-                for v, _ins, cls in probes(-B, B, True, True, dtype) + [(1e30, True, "huge"), (-1e30, True, "huge")]:
+                hv = 1e30 if B < 1e29 else (3e38 if dtype == torch.float32 else 1e300)
+                for v, _ins, cls in probes(-B, B, True, True, dtype) + [(hv, True, "huge"), (-hv, True, "huge")]:
                     xi = interior([], -B, B, g, dtype, n=n)
                     x, idx = place(xi, v, g)
                     r.count("tail_probes")
